@@ -363,14 +363,14 @@ pub fn check(tier: Tier, seed: u64) -> PropReport {
         "contracts run natively inside cw-multi-test with mantra-common-testing's token-factory mock (create-denom burns the configured fee from the caller; an empty fee list is not supported by the mock)".into(),
     ];
     let cases = match tier {
-        Tier::Quick => 6000,
+        Tier::Quick => 20_000,
         Tier::Thorough => 200_000,
     };
     let o = drive(&Creation, "C16", tier, cases, seed);
     rep.push(Creation.name(), o);
     let e = crate::props::poolprops::c16_hist();
     let h = match tier {
-        Tier::Quick => 1500,
+        Tier::Quick => 4000,
         Tier::Thorough => 30_000,
     };
     let o = drive(&e, "C16", tier, h, seed);
